@@ -1,7 +1,7 @@
 """Expression trees: construction, rendering as CoHDL source, evaluation by the MV model.
 
 node kinds:
-  ('in', name)  ('int', v)  ('lit', kind, w, v)
+  ('in', name)  ('int', v)  ('lit', kind, w, v)  ('pyb', True|False)  (a Python bool constant, only inside any/all lists)
   ('bin', op, l, r)   op in + - * // % tdiv rem << >> & | ^ @
   ('cmp', op, l, r)   ('un', op, x)  op in ~ neg abs not bool
   ('view', which, x)  ('resize', x, n, zeros)
@@ -39,6 +39,8 @@ def render(n, pre='self.'):
         return f"({n[1]})" if n[1] < 0 else str(n[1])
     if k == 'lit':
         return lit_src(n[1], n[2], n[3])
+    if k == 'pyb':
+        return 'True' if n[1] else 'False'
     if k == 'bin':
         a, b = render(n[2], pre), render(n[3], pre)
         if n[1] == 'tdiv':
@@ -94,6 +96,8 @@ def evaluate(n, env):
         return mv.INT(n[1])
     if k == 'lit':
         return MV(n[1], n[2] if n[1] != 'bit' else None, n[3])
+    if k == 'pyb':
+        return mv.BOOL(bool(n[1]))
     if k == 'cmp' and n[3][0] == 'nf':
         # x == Full: every bit set; x == Null: no bit set (documented for vectors and Bit)
         a = evaluate(n[2], env)
@@ -235,7 +239,7 @@ def depth(n):
     return 0
 
 
-KINDS = {'in', 'int', 'lit', 'bin', 'cmp', 'un', 'view', 'resize', 'idx', 'idxrt', 'slice', 'msb', 'lsb', 'ifexp',
+KINDS = {'in', 'int', 'lit', 'pyb', 'bin', 'cmp', 'un', 'view', 'resize', 'idx', 'idxrt', 'slice', 'msb', 'lsb', 'ifexp',
          'boolop', 'chain', 'selw', 'any', 'all'}
 
 
